@@ -15,6 +15,7 @@ import (
 	"fmt"
 	"io"
 	"os"
+	"runtime"
 	"os/exec"
 	"path/filepath"
 	"sort"
@@ -85,6 +86,109 @@ type sched struct {
 	insideSwitch int
 	switches     int
 	rrNext  int
+	opsDone []int64 // ops completed per client (free-running stalls wait on the others' progress)
+	stalled int32   // clients currently inside a stalled caller-supplied writer
+	stallViolation string
+}
+
+// curSched is the scheduler of this process's run (one run per process).
+var curSched *sched
+
+// stall: client c is inside a writer it handed to the registry (WriteJSON) and that writer does not
+// take the bytes for a while - a slow consumer, a full pipe. The other clients must be able to go on
+// reading the registry meanwhile. Baton mode: a series of forced hand-overs at "writer:" sites; if the
+// client that got the baton then blocks on a lock of the registry, no scheduler step happens any more
+// and the progress watchdog reports it. Free-running mode: wait until the other clients have completed
+// a few operations; if none of them makes any progress for 10 s while one of them sits in a lock of
+// the registry code, that is the same finding.
+var stallCount int64
+
+func (s *sched) stall(c int) {
+	atomic.AddInt64(&stallCount, 1)
+	atomic.AddInt32(&s.stalled, 1)
+	defer atomic.AddInt32(&s.stalled, -1)
+	if atomic.LoadInt32(&s.free) == 0 {
+		for i := 0; i < 2*s.n && atomic.LoadInt32(&s.free) == 0; i++ {
+			s.Yield(c, "writer:stall")
+		}
+		return
+	}
+	progress := func() (sum int64, left int) {
+		s.mu.Lock()
+		defer s.mu.Unlock()
+		for j := 0; j < s.n; j++ {
+			if j == c {
+				continue
+			}
+			sum += atomic.LoadInt64(&s.opsDone[j])
+			if !s.done[j] {
+				left++
+			}
+		}
+		return
+	}
+	base, left := progress()
+	need := int64(left)
+	t0 := time.Now()
+	for {
+		cur, l := progress()
+		if l == 0 || cur-base >= need {
+			return
+		}
+		if time.Since(t0) > 10*time.Second {
+			if cur == base {
+				if site := zlintLockBlocked(); site != "" {
+					s.mu.Lock()
+					s.stallViolation = site
+					s.mu.Unlock()
+				}
+			}
+			return
+		}
+		time.Sleep(200 * time.Microsecond)
+	}
+}
+
+// zlintLockBlocked: is some goroutine waiting for a lock inside zlint's registry code? Returns the
+// first zlint frame of that goroutine, or "".
+func zlintLockBlocked() string {
+	buf := make([]byte, 4<<20)
+	n := runtime.Stack(buf, true)
+	for _, g := range strings.Split(string(buf[:n]), "\n\n") {
+		hdr := g
+		if i := strings.Index(g, "\n"); i > 0 {
+			hdr = g[:i]
+		}
+		if !(strings.Contains(hdr, "sync.Mutex.Lock") || strings.Contains(hdr, "sync.RWMutex.") || strings.Contains(hdr, "semacquire")) {
+			continue
+		}
+		for _, ln := range strings.Split(g, "\n") {
+			if i := strings.Index(ln, "github.com/zmap/zlint/v3/lint."); i >= 0 && !strings.HasPrefix(ln, "\t") {
+				f := ln[i+len("github.com/zmap/zlint/v3/"):]
+				if j := strings.LastIndex(f, "("); j > 0 {
+					f = f[:j]
+				}
+				return f
+			}
+		}
+	}
+	return ""
+}
+
+// stallWriter is the writer a client hands to WriteJSON when its op says so: it stalls at the first
+// and at the 20th write.
+type stallWriter struct {
+	sb strings.Builder
+	c  int
+	n  int
+}
+
+func (w *stallWriter) Write(p []byte) (int, error) {
+	w.n++
+	if (w.n == 1 || w.n == 20) && curSched != nil {
+		curSched.stall(w.c)
+	}
+	return w.sb.Write(p)
 }
 
 func newSched(n int, sc *Schedule, log *EventLog) *sched {
@@ -97,6 +201,7 @@ func newSched(n int, sc *Schedule, log *EventLog) *sched {
 	s.yields = make([]int, n)
 	s.parked = make([]string, n)
 	s.inLint = make([]bool, n)
+	s.opsDone = make([]int64, n)
 	s.rng = newRNG(sc.Seed)
 	if sc.Strategy == "pct" {
 		s.pct = map[int]bool{}
@@ -160,6 +265,15 @@ func (s *sched) decide(c int, site string, finished bool) int {
 			return others[0]
 		}
 		return others[s.rng.Intn(len(others))]
+	}
+	if strings.HasPrefix(site, "writer:") && s.sc.Strategy != "serial" {
+		// a caller-supplied writer that stalls: somebody else runs now
+		for d := 1; d <= s.n; d++ {
+			j := (c + d) % s.n
+			if !s.done[j] && j != c {
+				return j
+			}
+		}
 	}
 	next := func() int { // round robin
 		for d := 1; d <= s.n; d++ {
@@ -738,7 +852,11 @@ func genSched(seed uint64, prop, tier, mode string) *Plan {
 			case 5:
 				ops = append(ops, Op{K: "bysource", Reg: pickReg(), Source: pick(g, meta.sources())})
 			case 6:
-				ops = append(ops, Op{K: "writejson", Reg: pickReg()})
+				wj := Op{K: "writejson", Reg: pickReg()}
+				if g.Chance(0.5) {
+					wj.Note = "stall" // the writer handed to the listing stalls: the others must be able to go on
+				}
+				ops = append(ops, wj)
 			case 7:
 				ops = append(ops, Op{K: "defaultcfg", Reg: pickReg()})
 			case 8:
@@ -868,6 +986,65 @@ func genSched(seed uint64, prop, tier, mode string) *Plan {
 				pos := g.Intn(len(p.Clients[c]) + 1)
 				op := Op{K: "lint", Obj: len(p.Objects) - 1, Reg: 0, Note: "finding:" + L}
 				p.Clients[c] = append(p.Clients[c][:pos], append([]Op{op}, p.Clients[c][pos:]...)...)
+			}
+		}
+	}
+
+	// ---- lint families in parallel: rules of one family (one source document, or one word of the
+	// rule names: qcstatem, idn, onion, crl ...) tend to share their helpers. In a share of the runs
+	// objects on which *some* rule of a seeded family has a finding open every client's op list -
+	// different objects, different extension values, the same helper code at the same time.
+	if (race && g.Chance(0.5)) || (!race && g.Chance(0.3)) {
+		cidx := corpusClassIndex()
+		fam := map[string]map[int]bool{}
+		famLints := map[string]map[string]bool{}
+		note := func(f string, L string, i int) {
+			if fam[f] == nil {
+				fam[f] = map[int]bool{}
+				famLints[f] = map[string]bool{}
+			}
+			fam[f][i] = true
+			famLints[f][L] = true
+		}
+		for i := range cidx {
+			for _, n := range cidx[i].Find {
+				if m, ok := meta.ByName[n]; ok {
+					note("source:"+m.Source, n, i)
+				}
+				if toks := strings.Split(n, "_"); len(toks) > 2 {
+					note("word:"+toks[1], n, i)
+				}
+			}
+		}
+		var fams []string
+		for _, f := range sortedKeys(fam) {
+			if len(fam[f]) >= 2 && len(famLints[f]) >= 2 && len(famLints[f]) <= 40 {
+				fams = append(fams, f)
+			}
+		}
+		if len(fams) > 0 {
+			F := pick(g, fams)
+			var objs []int
+			for i := range fam[F] {
+				objs = append(objs, i)
+			}
+			sort.Ints(objs)
+			p.Knobs["family"] = F
+			reps := 1
+			if race {
+				reps = g.Range(1, 4)
+			}
+			for c := 0; c < K; c++ {
+				o := loadCorpusFile(cidx[objs[g.Intn(len(objs))]].File)
+				if o == nil {
+					continue
+				}
+				p.Objects = append(p.Objects, *o)
+				var burst []Op
+				for r := 0; r < reps; r++ {
+					burst = append(burst, Op{K: "lint", Obj: len(p.Objects) - 1, Reg: 0, Fresh: r > 0, Note: "family:" + F})
+				}
+				p.Clients[c] = append(burst, p.Clients[c]...)
 			}
 		}
 	}
@@ -1052,6 +1229,11 @@ func execClientOp(p *Plan, shared []lint.Registry, cs *clientState, op *Op, full
 		}
 		return txt(strings.Join(ns, ","))
 	case "writejson":
+		if op.Note == "stall" {
+			w := &stallWriter{c: cs.id}
+			reg.WriteJSON(w)
+			return txt(w.sb.String())
+		}
 		var sb strings.Builder
 		reg.WriteJSON(&sb)
 		return txt(sb.String())
@@ -1115,6 +1297,7 @@ func runSched(p *Plan, keepLog bool, mode string) *RunResult {
 		sc = &Schedule{Strategy: "serial"}
 	}
 	s := newSched(K, sc, log)
+	curSched = s
 	free := strings.HasPrefix(mode, "free")
 	if free {
 		atomic.StoreInt32(&s.free, 1)
@@ -1147,6 +1330,7 @@ func runSched(p *Plan, keepLog bool, mode string) *RunResult {
 				}
 				r := execClientOp(p, view, cs, &cs.ops[i], full)
 				cs.out = append(cs.out, r)
+				atomic.AddInt64(&s.opsDone[c], 1)
 			}
 			s.Finish(c)
 		}(c, cs, view)
@@ -1202,6 +1386,13 @@ func runSched(p *Plan, keepLog bool, mode string) *RunResult {
 					stall, last = 0, cur
 				}
 				if stall == 20 { // 10 s without a scheduler step: release everybody
+					if atomic.LoadInt32(&s.stalled) > 0 {
+						if site := zlintLockBlocked(); site != "" {
+							s.mu.Lock()
+							s.stallViolation = site
+							s.mu.Unlock()
+						}
+					}
 					log.Add("watchdog: no scheduler step for 10 s, switching to free-running mode")
 					res.Counters.inc("watchdog_free_fallback")
 					atomic.StoreInt32(&s.free, 1)
@@ -1243,6 +1434,11 @@ func runSched(p *Plan, keepLog bool, mode string) *RunResult {
 	if deadlock != "" {
 		res.Violations = append(res.Violations, Violation{Property: "C10", Class: "deadlock", Detail: deadlock})
 	}
+	if s.stallViolation != "" {
+		res.Violations = append(res.Violations, Violation{Property: "C10", Class: "blocked_behind_stalled_writer", Site: s.stallViolation,
+			Detail: "while one client's WriteJSON sat in its (stalled) writer, no other client made any progress for 10 s and one of them was waiting for a lock in " + s.stallViolation + ": a registry lock is held across the caller's writer"})
+	}
+	res.Counters.add("fault/writer_stall", int(stallCount))
 
 	if mode == "serial" {
 		// the twin: hand the results back
